@@ -123,7 +123,7 @@ def emit_cases(seed):
     return out
 
 
-VALUE_KINDS = ['attr', 'attr', 'attr', 'attr', 'rename', 'save', 'contributors', 'matinputs', 'matinputs', 'matbind']
+VALUE_KINDS = ['attr', 'attr', 'attr', 'attr', 'rename', 'save', 'contributors', 'matinputs', 'matinputs', 'matbind', 'srcdata', 'srcdata', 'save']
 
 
 def reader_oracle(kind, seed, nops, kinds=None):
